@@ -1,5 +1,8 @@
 pub mod c01;
+pub mod c03;
 pub mod c04;
+pub mod c05;
+pub mod c19;
 
 use crate::rt::{Args, Outcome, Report};
 use serde_json::Value;
@@ -7,7 +10,10 @@ use serde_json::Value;
 pub fn run(args: &Args, rep: &mut Report) -> Result<(), String> {
 	match args.prop.as_str() {
 		"C01" => c01::run(args, rep),
+		"C03" => c03::run(args, rep),
 		"C04" => c04::run(args, rep),
+		"C05" => c05::run(args, rep),
+		"C19" => c19::run(args, rep),
 		p => return Err(format!("unknown property {}", p)),
 	}
 	Ok(())
@@ -16,7 +22,10 @@ pub fn run(args: &Args, rep: &mut Report) -> Result<(), String> {
 pub fn replay(args: &Args, part: &str, case: &Value) -> Result<Outcome, String> {
 	match args.prop.as_str() {
 		"C01" => c01::replay(args, part, case),
+		"C03" => c03::replay(args, part, case),
 		"C04" => c04::replay(args, part, case),
+		"C05" => c05::replay(args, part, case),
+		"C19" => c19::replay(args, part, case),
 		p => Err(format!("unknown property {}", p)),
 	}
 }
